@@ -67,14 +67,19 @@ CHECKS = {
              'is not installed); known finding F22'),
     'C05': dict(
         cat='exploration', ref='5 C05',
-        technique='eviction injection (between calls and inside key '
-                  'comparisons) + per-call pin monitor + uncached twin; '
-                  'ASan build for the in-comparison shards',
+        technique='eviction injection (between calls, inside key '
+                  'comparisons, and at the n-th load inside an operation on '
+                  'two stored operands, optionally followed by a refused '
+                  'load) + per-call pin monitor + uncached twin; ASan build '
+                  'for the in-comparison and in-load shards',
         text='A container stored in MiniDB is compared call by call with an '
              'uncached twin while cache sweeps are injected between calls '
              'and from inside key comparisons, and with deliberately '
              'failing calls; after every single call every cached node is '
-             'inspected for a leftover pin.',
+             'inspected for a leftover pin.  Operations between two stored '
+             'containers run with a sweep at a load inside the call and an '
+             'optional refused load (same result as unstored twins, or the '
+             "data manager's error with operands unchanged).",
         note='trusted: MiniDB; _p_sticky is the observable pin; Python '
              'in-comparison eviction is known finding F16'),
     'C07': dict(
@@ -212,8 +217,11 @@ CHECKS = {
     'C16': dict(
         cat='exploration', ref='5 C16, 3.7',
         technique='valgrind memcheck slice + garbage-cycle collection + '
-                  'reference-count ledger at every quiescent point + '
-                  'ASan/UBSan build with PYTHONMALLOC=malloc',
+                  'reference-count ledger at every quiescent point '
+                  '(differential ledger over histories, absolute ledger '
+                  'over operations between stored operands with in-load '
+                  'sweeps and refused loads) + ASan/UBSan build with '
+                  'PYTHONMALLOC=malloc',
         text='After every operation of histories on the object-keyed / '
              'object-valued C classes (incl. error paths, failing '
              'comparisons, set algebra, merges, iterators dropped half-way, '
@@ -230,7 +238,8 @@ CHECKS = {
                   'under valgrind memcheck) '
                   'fault enumeration with the guarded allocation hook: fail '
                   'the n-th BTree_Malloc/BTree_Realloc of every allocating '
-                  'operation; ASan build',
+                  'operation (incl. the in-place operators with stored, '
+                  'evicted operands); ASan build',
         text='Using the BTREES_VERIF countdown hook every allocation of '
              'every allocating operation is failed in turn on containers '
              'reached by histories; the call must raise MemoryError (or, '
